@@ -66,6 +66,9 @@ ITEMS = {
     "zl0": (lambda p: ["z = l[0]"], {"l"}, {"z"}),
     "dct": (lambda p: ['d = {"k": x}'], {"x"}, {"d"}),
     "zdk": (lambda p: ['z = d["k"]'], {"d"}, {"z"}),
+    # container STORES (create, overwrite one element, read it back)
+    "lsetz": (lambda p: ["l = [x, x]", "l[0] = y", "z = l[0]"], {"x", "y"}, {"l", "z"}),
+    "dsetz": (lambda p: ['d = {"k": x}', 'd["k"] = y', 'z = d["k"]'], {"x", "y"}, {"d", "z"}),
     "ife": (lambda p: ["if x > 1:", "    y = 0", "else:", "    y = 5"], {"x"}, {"y"}),
     "ifa": (lambda p: [f"if {p}:", "    x = 1"], {"P"}, set()),
     "new": (lambda p: ["b = Box()"], set(), {"b"}),
